@@ -194,6 +194,15 @@ theorem builders_thread_copy :
        "_apply_set_operation: maybe_parse(e;copy=copy)"] ∧
     SqlglotModel.Generated.C09.builderCallSitesNotThreadingCopy = [] := by decide +kernel
 
+/-- dialect generators that override `generate` (Athena today, which picks the Hive or the Trino printer per statement):
+    the override does not reassign its tree parameter and hands THAT SAME object, with the caller's own `copy` flag, to
+    every delegate — so the one copy made downstream is the copy that gets printed. Re-extracted (ast) on every run; an
+    override that copies into one variable and delegates another (C09-7) breaks this build. -/
+theorem generate_overrides_pass_same_object :
+    SqlglotModel.Generated.C09.generateOverrides =
+      ["sqlglot/generators/athena.py:AthenaGenerator.generate(expression) | assigns: - | delegates: self._hive_generator.generate(expression, copy=copy); self._trino_generator.generate(expression, copy=copy)"] := by
+  decide +kernel
+
 /-- every `return` of `exp.expand` (its own body, not the nested `_expand`) goes through the copying transform, and
     `lineage` hands `maybe_parse` the caller's `copy` flag unconditionally — re-extracted (ast) on every run. A new
     return path (a fast path returning the input) or a conditional copy breaks this build. -/
